@@ -31,20 +31,20 @@ import sched
 QUICK_PROGRAMS = [
     # (world, program, bound, model?)
     ('c', 'inc:0:1|inc:0:2', 2, True),
-    ('c', 'inc:0:1,inc:0:2|inc:0:4|get:0', 2, True),
-    ('c', 'inc:0:1|inc:0:2|col', 1, True),
+    ('c', 'inc:0:1,inc:0:2|inc:0:4|get:0', 1, True),
     ('p', 'linc:0:1|linc:0:2', 2, True),
     ('p', 'lab:0|lab:0|lab:1', 1, True),
-    ('p', 'linc:0:1,linc:1:2|col', 2, True),
+    ('p', 'linc:0:1,linc:1:2|col', 1, True),
     ('p', 'lab:0,rem:0|lab:0|clr', 1, True),
-    ('c', 'reg:1,unreg:1|col', 2, True),
-    ('c', 'reg:1|reg:2,unreg:2|col', 1, True),
+    ('c', 'reg:1,unreg:1|col', 1, True),
     ('ce', 'rcol:1|reg:2', 1, True),
-    ('ce', 'rcol:1|col', 1, True),
     ('s', 'obs:s:2|obs:s:3|col', 1, False),
     ('h', 'obs:h:1|obs:h:2', 1, False),
 ]
 THOROUGH_PROGRAMS = [
+    ('c', 'inc:0:1|inc:0:2|col', 2, True),
+    ('c', 'reg:1|reg:2,unreg:2|col', 2, True),
+    ('ce', 'rcol:1|col', 2, True),
     ('c', 'inc:0:1,inc:0:2,inc:0:4|inc:0:8,inc:0:16|col,col', 3, True),
     ('c', 'inc:0:1|inc:0:2|inc:0:4', 3, True),
     ('cp', 'linc:0:1,inc:0:1|linc:0:2,col|lab:0', 3, True),
@@ -615,7 +615,7 @@ def run(ctx):
     warnings.filterwarnings('ignore')
     quick = ctx.tier == 'quick'
     widen = bool(ctx.broken)
-    budget_total = (42.0 if quick else 420.0) * (1.6 if widen else 1.0)
+    budget_total = (40.0 if quick else 420.0) * (1.5 if widen else 1.0)
     ctx.deadline = time.time() + budget_total
     programs = list(QUICK_PROGRAMS) + ([] if quick else list(THOROUGH_PROGRAMS))
     if not quick:
@@ -646,10 +646,10 @@ def run(ctx):
             stats['programs_skipped'] = stats.get('programs_skipped', 0) + 1
             continue
         info, fails = explore_program(ctx, models, backend, flags, program, bound, use_model,
-                                      budget_s=budget * 0.8, nrandom=(6 if quick else 40) * (2 if widen else 1), stats=stats)
+                                      budget_s=budget * 0.8, nrandom=(5 if quick else 40) * (2 if widen else 1), stats=stats)
         infos.append(info)
         total_fails += fails
-    ctx.extra['programs'] = infos
+    ctx.extra['program_reports'] = infos
     ctx.extra['run_stats'] = stats
     try:
         ctx.extra['register_time_reentrancy_probe'] = reentrant_register_probe(ctx)
@@ -657,7 +657,7 @@ def run(ctx):
         ctx.extra['register_time_reentrancy_probe'] = 'probe failed: %s' % e
     ctx.rule = ('real threads on the real code, one bytecode per step; per program and back-end: every schedule with <= bound '
                 'pre-emptions at lock operations / bytecodes of the shared-state methods (iterative context bounding, within the '
-                'time budget: see programs[].bounded_search_complete) + seeded random schedules; a case is non-trivial and '
+                'time budget: see program_reports[].bounded_search_complete) + seeded random schedules; a case is non-trivial and '
                 'distinct by (back-end, program, executed schedule as run-length-encoded thread ids)')
     ctx.exhaustive = False
     if stats.get('stalled'):
